@@ -49,7 +49,7 @@ type c20User struct {
 }
 
 type c20Op struct {
-	K        string `json:"k"` // req | stepdown | isolate | heal | reset | run
+	K        string `json:"k"`              // req | stepdown | isolate | heal | reset | run
 	Kind     string `json:"kind,omitempty"` // exec | query | request
 	N        int    `json:"n,omitempty"`    // target node
 	Level    string `json:"lvl,omitempty"`
@@ -68,15 +68,16 @@ type c20Op struct {
 }
 
 type c20Scenario struct {
-	Seed    uint64     `json:"seed"`
-	Nodes   int        `json:"nodes"`
-	Auth    bool       `json:"auth"`
-	Users   []c20User  `json:"users,omitempty"` // index 0 = anonymous placeholder
-	Star    [][]string `json:"star,omitempty"`  // per node: perms granted to everybody
-	Knobs   node.Knobs `json:"knobs"`
-	Tick    float64    `json:"tick"`
-	NoFault bool       `json:"no_fault,omitempty"`
-	Ops     []c20Op    `json:"ops"`
+	Seed     uint64     `json:"seed"`
+	Nodes    int        `json:"nodes"`
+	Auth     bool       `json:"auth"`
+	Users    []c20User  `json:"users,omitempty"` // index 0 = anonymous placeholder
+	Star     [][]string `json:"star,omitempty"`  // per node: perms granted to everybody
+	Knobs    node.Knobs `json:"knobs"`
+	Tick     float64    `json:"tick"`
+	NoFault  bool       `json:"no_fault,omitempty"`
+	NonVoter bool       `json:"non_voter,omitempty"` // the last node is a non-voting (read-only) node
+	Ops      []c20Op    `json:"ops"`
 }
 
 func c20Has(l []string, p string) bool {
@@ -137,6 +138,9 @@ func (sc *c20Scenario) credStore(nodeIdx int) *auth.CredentialsStore {
 
 func c20Gen(r *core.Rand, tier string) any {
 	sc := &c20Scenario{Seed: r.Uint64(), Nodes: 3}
+	if r.Bool(0.3) {
+		sc.Nodes, sc.NonVoter = 4, true
+	}
 	sc.Tick = []float64{0.02, 0.08, 0.2}[r.Intn(3)]
 	hb := time.Duration(r.Range(2, 6)) * 100 * time.Millisecond
 	sc.Knobs = node.Knobs{HeartbeatTimeout: hb, ElectionTimeout: hb, LeaderLeaseTimeout: hb / 2,
@@ -294,6 +298,7 @@ type c20Req struct {
 	lagged      bool
 	rstLeft     int
 	faulted     bool // a connection was reset while the request was in flight
+	faultNear   bool // a leadership fault was injected shortly before or during the request
 
 	resp    *hxResp
 	done    bool
@@ -366,7 +371,7 @@ func c20Run(c *core.Ctx, raw json.RawMessage) {
 		n.WithHTTP = true
 		n.Creds = sc.credStore(i)
 	}
-	if err := s.Boot(sc.Nodes, sc.Knobs, nil); err != nil {
+	if err := s.Boot(sc.Nodes, sc.Knobs, func(i int) bool { return !(sc.NonVoter && i == sc.Nodes) }); err != nil {
 		c.Discard("boot-failed: " + err.Error())
 		return
 	}
@@ -446,8 +451,18 @@ func c20Run(c *core.Ctx, raw json.RawMessage) {
 	hxSettle(d, view, 30*time.Second)
 
 	present := []string{"init"} // tags known to be in the table (definite)
-	var absent []string          // tags known never to be applied (definite)
+	var absent []string         // tags known never to be applied (definite)
 	inflight := 0
+	var lastFault time.Time
+	grace := 2*sc.Knobs.ElectionTimeout + 2*time.Second
+	noteFault := func() {
+		lastFault = time.Now()
+		for _, o := range reqs {
+			if !o.done {
+				o.faultNear = true
+			}
+		}
+	}
 	nextID := 0
 	lagN := 0
 	apiURL := func(i int) string { return "http://" + s.Nodes[i].HTTPAddr }
@@ -518,6 +533,7 @@ func c20Run(c *core.Ctx, raw json.RawMessage) {
 			r.c0, _ = l.Store.CommitIndex()
 		}
 		r.invokeEpoch = view.Epoch
+		r.faultNear = !lastFault.IsZero() && time.Since(lastFault) < grace
 		// statements
 		var list []any
 		for i := 0; i < len(op.Pat); i++ {
@@ -574,7 +590,7 @@ func c20Run(c *core.Ctx, raw json.RawMessage) {
 		case "query":
 			r.path = "/db/query"
 			r.perms = []string{"query"}
-			r.needLdr = lvl != "none" // every node is a voter here, so auto = weak
+			r.needLdr = lvl != "none" && !(lvl == "auto" && sc.NonVoter && op.N == sc.Nodes) // auto = weak on voters, none on a non-voter
 			if op.Get && len(list) == 1 {
 				method, ctype = "GET", ""
 				kv = append(kv, "q", list[0].(string))
@@ -584,7 +600,7 @@ func c20Run(c *core.Ctx, raw json.RawMessage) {
 		case "request":
 			r.path = "/db/request"
 			r.perms = []string{"query", "execute"}
-			r.needLdr = hasW || lvl != "none"
+			r.needLdr = hasW || (lvl != "none" && !(lvl == "auto" && sc.NonVoter && op.N == sc.Nodes))
 			body = hxStmtsJSON(list)
 		default:
 			return nil
@@ -626,11 +642,14 @@ func c20Run(c *core.Ctx, raw json.RawMessage) {
 
 	judge = func(r *c20Req) {
 		resp := r.resp
-		if resp == nil {
-			r.outcome = "error"
+		if resp == nil || resp.Code == 0 {
+			r.outcome = "error" // the scenario was already being torn down
 			return
 		}
-		stable := r.ldrAtInvoke != 0 && r.invokeEpoch == r.retEpoch
+		// stable: one agreed leader, no node's view of leadership changed from invoke to
+		// return, and no leadership fault was injected during or shortly before (a
+		// leadership transfer is "in progress" before any view changes).
+		stable := r.ldrAtInvoke != 0 && r.invokeEpoch == r.retEpoch && !r.faultNear
 		tgtAllows := sc.allows(r.tgt, r.uidx, r.perms...)
 		ldrAllows := r.ldrAtInvoke != 0 && sc.allows(r.ldrAtInvoke, r.uidx, r.perms...)
 		atLeader := r.tgt == r.ldrAtInvoke
@@ -640,6 +659,9 @@ func c20Run(c *core.Ctx, raw json.RawMessage) {
 			c.Probe("requests_stable")
 			if !atLeader && r.needLdr {
 				c.Probe("stable_to_follower_" + r.op.Kind)
+				if sc.NonVoter && r.tgt == sc.Nodes {
+					c.Probe("stable_to_non_voter")
+				}
 			}
 		} else {
 			c.Probe("requests_while_leadership_moved")
@@ -798,6 +820,7 @@ func c20Run(c *core.Ctx, raw json.RawMessage) {
 		case "stepdown":
 			if l := s.Leader(); l != nil {
 				c.Fault("stepdown")
+				noteFault()
 				if inflight > 0 {
 					c.Probe("stepdown_with_request_in_flight")
 				}
@@ -816,6 +839,7 @@ func c20Run(c *core.Ctx, raw json.RawMessage) {
 				s.Net.Heal()
 				s.Net.Partition([]string{l.HostName}, rest)
 				c.Fault("isolate-leader")
+				noteFault()
 				if inflight > 0 {
 					c.Probe("isolate_with_request_in_flight")
 				}
@@ -824,6 +848,7 @@ func c20Run(c *core.Ctx, raw json.RawMessage) {
 		case "heal":
 			s.Net.Heal()
 			c.Fault("heal")
+			noteFault()
 			c.Log.Add("%d fault heal", s.StepN)
 		case "reset":
 			seen := map[uint64]bool{}
@@ -879,20 +904,12 @@ func c20Run(c *core.Ctx, raw json.RawMessage) {
 	// final table through a strong read on the leader (direct store call)
 	counts := map[string]int{}
 	ids := map[string]int64{}
-	okRead := false
-	d.do("final-read", 30*time.Second, func() {
-		qr := &proto.QueryRequest{Level: proto.ConsistencyLevel_STRONG, Request: &proto.Request{Statements: []*proto.Statement{{Sql: "SELECT id, tag FROM t ORDER BY id"}}}}
-		rows, _, _, err := ldr.Store.Query(context.Background(), qr)
-		if err != nil || len(rows) != 1 || rows[0].Error != "" {
-			return
-		}
-		for _, v := range rows[0].Values {
-			tag := v.Parameters[1].GetS()
-			counts[tag]++
-			ids[tag] = v.Parameters[0].GetI()
-		}
-		okRead = true
-	})
+	vals, okRead := hxStrongRead(d, view, "SELECT id, tag FROM t ORDER BY id")
+	for _, v := range vals {
+		tag := v.Parameters[1].GetS()
+		counts[tag]++
+		ids[tag] = v.Parameters[0].GetI()
+	}
 	if !okRead {
 		c.Discard("final-read-failed")
 		return
@@ -958,23 +975,37 @@ func c20Run(c *core.Ctx, raw json.RawMessage) {
 	c.ProbeN("requests_ok", nOK)
 	c.ProbeN("requests_rejected", nRej)
 	c.ProbeN("requests_error", nErr)
-	// every node holds the same data (nothing reached a database except through the log)
-	var ref string
-	for i := 1; i <= sc.Nodes; i++ {
-		if !s.Nodes[i].Up {
-			continue
+	// every node holds the same data (nothing reached a database except through
+	// the log). Convergence is eventual: a request whose client already got an
+	// error may still be committing on the leader, so divergence is reported only
+	// if it persists over several settle rounds.
+	for round := 0; ; round++ {
+		hxSettle(d, view, 60*time.Second)
+		var ref, diff string
+		for i := 1; i <= sc.Nodes; i++ {
+			if !s.Nodes[i].Up {
+				continue
+			}
+			dmp, err := s.DumpNode(s.Nodes[i])
+			if err != nil {
+				c.Discard("dump-failed")
+				return
+			}
+			if ref == "" {
+				ref = dmp
+			} else if dmp != ref && diff == "" {
+				diff = fmt.Sprintf("node %d differs from node 1 after settle: %s", i, sim.FirstDiff(ref, dmp))
+			}
 		}
-		dmp, err := s.DumpNode(s.Nodes[i])
-		if err != nil {
-			c.Discard("dump-failed")
+		if diff == "" {
+			break
+		}
+		if round >= 4 {
+			c.Violate("nodes-diverged", "%s (persisted over %d settle rounds, %s simulated)", diff, round+1, s.SimTime())
 			return
 		}
-		if ref == "" {
-			ref = dmp
-		} else if dmp != ref {
-			c.Violate("nodes-diverged", "node %d differs from node 1 after settle: %s", i, sim.FirstDiff(ref, dmp))
-			return
-		}
+		c.Probe("late_convergence_round")
+		d.runFor(5 * time.Second)
 	}
 	c.Res.Trivial = nOK == 0
 	c.Sig(fmt.Sprintf("%d/%d/%d/%d", nOK, nRej, nErr, len(counts)))
@@ -1033,7 +1064,7 @@ func c20CheckResults(c *core.Ctx, sc c20Scenario, r *c20Req, desc string, stable
 			// values are judged where the level promises the leader's state: strong and
 			// linearizable always; weak/auto only under stable leadership (a deposed
 			// leader may legitimately serve a weak read); none never (local by design).
-			judgeVals := lvl == "strong" || lvl == "linearizable" || (stable && (lvl == "weak" || lvl == "auto"))
+			judgeVals := lvl == "strong" || lvl == "linearizable" || (stable && (lvl == "weak" || lvl == "auto") && r.needLdr)
 			if r.op.Kind == "request" && strings.ContainsAny(r.op.Pat, "wf") {
 				judgeVals = true // goes through the log with the writes
 			}
